@@ -42,7 +42,7 @@ struct Api {
   static int T##_bin(int k, void* dv, void* sv) { ppl_##C##_t d = (ppl_##C##_t) dv; ppl_const_##C##_t s = (ppl_const_##C##_t) sv; switch (k) { \
     case 0: return ppl_##C##_intersection_assign(d, s); case 1: return ppl_##C##_upper_bound_assign(d, s); case 2: return ppl_##C##_difference_assign(d, s); \
     case 3: return ppl_##C##_time_elapse_assign(d, s); case 4: return ppl_##C##_contains_##C(d, s); case 5: return ppl_##C##_strictly_contains_##C(d, s); \
-    case 6: return ppl_##C##_is_disjoint_from_##C(d, s); default: return ppl_##C##_concatenate_assign(d, s); } } \
+    case 6: return ppl_##C##_is_disjoint_from_##C(d, s); case 8: return ppl_##C##_equals_##C(d, s); default: return ppl_##C##_concatenate_assign(d, s); } } \
   static int T##_un(int k, void* dv, size_t a, size_t b, size_t* ds, size_t n) { ppl_##C##_t d = (ppl_##C##_t) dv; switch (k) { \
     case 0: return ppl_##C##_add_space_dimensions_and_embed(d, a); case 1: return ppl_##C##_add_space_dimensions_and_project(d, a); \
     case 2: return ppl_##C##_remove_higher_space_dimensions(d, a); case 3: return ppl_##C##_remove_space_dimensions(d, ds, n); \
@@ -91,6 +91,11 @@ static void run_class(const Api& A, const std::vector<Step>& st, vj::Writer& W) 
     std::vector<size_t> ds(x.vs.size()); ppl_dimension_type nad; ppl_not_a_dimension(&nad); for (size_t i = 0; i < x.vs.size(); ++i) ds[i] = x.vs[i] >= 0 ? (size_t) x.vs[i] : (size_t) nad;
     // (observation used to classify divergences: is an operand empty before the call?)
     bool emp = false; if (op != "new" && op != "copy") { if (H[x.s] && A.un(9, H[x.s], 0, 0, 0, 0) > 0) emp = true; if (x.t > 0 && H[x.t] && A.un(9, H[x.t], 0, 0, 0, 0) > 0) emp = true; } hcalls = 0; hcode = 0;
+    // a rejected call and an observer must leave the value behind the handle unchanged: compared with a copy taken before the call
+    static const char* OBS[] = { "contains", "strictly_contains", "is_disjoint_from", "relation_with_constraint", "bounds_from_above", "maximize", "space_dimension", "is_empty", "is_universe", "is_bounded", "OK", "affine_dimension", 0 };
+    void* snap = 0; void* snapt = 0;
+    if (op != "new" && op != "copy" && op != "delete" && (x.out == "inv" || idx(OBS, op) >= 0)) { if (H[x.s]) A.copy(&snap, H[x.s]); if (x.t > 0 && x.t != x.s && H[x.t]) A.copy(&snapt, H[x.t]); }
+    hcalls = 0; hcode = 0;
     if (op == "new") rc = A.neu(&H[x.s], x.a, (int) x.b);
     else if (op == "copy") rc = A.copy(&H[x.s], H[x.t]);
     else if (op == "delete") { rc = A.del(H[x.s]); H[x.s] = 0; }
@@ -113,6 +118,8 @@ static void run_class(const Api& A, const std::vector<Step>& st, vj::Writer& W) 
     LV dims, exp;
     for (int s = 1; s <= 4; ++s) { long dd = -1; if (H[s]) { size_t m = 0; hcalls = 0; int r2 = A.dim(H[s], &m); dd = r2 < 0 ? -2 : (long) m; } dims.push_back(dd); exp.push_back(model[s]); }
     if (bad == "" && dims != exp) bad = "space-dimensions-differ-from-the-model";
+    if (snap) { if (bad == "" && H[x.s] && A.bin(8, H[x.s], snap) <= 0) bad = (x.out == "inv") ? "rejected-call-changed-the-value-behind-the-handle" : "observer-changed-the-value-behind-the-handle"; A.del(snap); }
+    if (snapt) { if (bad == "" && H[x.t] && A.bin(8, H[x.t], snapt) <= 0) bad = "call-changed-the-value-of-its-const-argument"; A.del(snapt); }
     vj::Obj e; e.s("e", "Dim").s("cls", A.name).i("t", t).s("op", op).s("exp", x.out).i("rc", rcode).i("hc", hc).i("hcode", hcd).raw("dims", vj::arr(dims)).raw("expdims", vj::arr(exp)).s("bad", bad).b("emp", emp).b("big", false);
     W.line(e.str());
     if (dims != exp) break;   // the handles no longer mirror the model: stop this class
